@@ -24,7 +24,7 @@ func init() { core.Register(prop{}) }
 func (prop) ID() string    { return "C06" }
 func (prop) Level() string { return "exploration" }
 func (prop) Rule() string {
-	return "scenario = one generated configuration (1..3 capture channels, 0..4 filters with channel lists incl. unknown names, categories/services lists absent, empty or 1..3 expressions from a regex alphabet) run through the real server.Run; an emitter service puts 40 stamped events on the bus (category/service matching, non-matching, missing, non-string), sequentially or from two concurrent senders; every third scenario is re-run with all other channels/filters removed. Non-trivial = >=1 stamped event was delivered to or withheld from a channel by a filter; distinct by configuration text. One event in eight already carries a token key (string, int or nil) when it is put on the bus. The expression alphabet includes inline flags ((?i), (?s)), a character class and a counted repetition; values come in upper and mixed case."
+	return "scenario = one generated configuration (1..3 capture channels, 0..4 filters with channel lists incl. unknown names, categories/services lists absent, empty or 1..3 expressions from a regex alphabet) run through the real server.Run; an emitter service puts 40 stamped events on the bus (category/service matching, non-matching, missing, non-string), sequentially or from two concurrent senders; every third scenario is re-run with all other channels/filters removed. Non-trivial = >=1 stamped event was delivered to or withheld from a channel by a filter; distinct by configuration text. One event in eight already carries a token key (string, int or nil) when it is put on the bus. The expression alphabet includes inline flags ((?i), (?s)), a character class and a counted repetition; values come in upper and mixed case. One scenario in 160 has a channel that takes six seconds over its first event."
 }
 func (prop) Assumptions() []string {
 	return []string{"an empty expression list is treated like an absent one", "a missing or non-string category/service is matched as the empty string", "no duplicate channel names within one filter", "heartbeat and other unstamped events are ignored"}
